@@ -95,6 +95,7 @@ def Res.isAbort : Res → Bool | .raised | .undecided | .tokErr | .outOfFuel => 
 structure St where
   pos     : Nat
   invalid : Bool                                  -- self.call_invalid_rules
+  verbose : Bool                                  -- self._verbose (tracing; must not change any result: C15)
   cache   : Array (List (Nat × Res))              -- per position: (rule id ↦ result stored)
   fetched : Nat                                   -- number of tokens fetched so far (for diagnose())
   fired   : List (Nat × Nat)                      -- (rule, alternative index) whose action ran, most recent first
@@ -193,8 +194,10 @@ def execRule : Nat → Nat → St → Res × St
         let mark := s.pos
         match cacheGet s.cache mark id with
         | some (.ok e) => (.ok e, s.reset e)
-        | some (.fail e) => (.fail e, s.reset e)      -- fast path: `self._reset(endmark)` whatever the tree
-                                                       -- (endmark = mark for a failure entry)
+        | some (.fail e) =>
+          -- fast path: `self._reset(endmark)` whatever the tree (endmark = mark for a failure entry);
+          -- slow (verbose) path: `if tree: self._reset(endmark)` - no reset for a failure
+          if s.verbose then (.fail s.pos, s) else (.fail e, s.reset e)
         | some other => (other, s)
         | none =>
           let s0 := { s with cache := cachePut s.cache mark id (.fail mark) }
@@ -354,8 +357,8 @@ def execSepRepeat : Nat → Prim → Prim → Nat → Nat → St → Nat × Res 
 end
 
 /-- Initial state for a token list. -/
-def St.init (n : Nat) (invalid : Bool) : St :=
-  { pos := 0, invalid := invalid, cache := Array.replicate (n + 1) [], fetched := 0, fired := [], assumed := false, resets := 0, peeks := 0, nexts := 0 }
+def St.init (n : Nat) (invalid : Bool) (verbose : Bool := false) : St :=
+  { pos := 0, invalid := invalid, verbose := verbose, cache := Array.replicate (n + 1) [], fetched := 0, fired := [], assumed := false, resets := 0, peeks := 0, nexts := 0 }
 
 /-- Outcome of `Parser.parse(rule)` at the recogniser level. -/
 inductive Outcome where
@@ -369,8 +372,8 @@ deriving DecidableEq, Repr, Inhabited
 
 /-- `Parser.parse`: first pass; on failure clear the cache, `reset(0)`, set the flag, run again, and
     ALWAYS end in a raise: acceptance is decided by the first pass alone. -/
-def parse (fuel : Nat) (start : Nat) : Outcome × St × Option St × Res :=
-  let s0 := St.init w.size false
+def parse (fuel : Nat) (start : Nat) (verbose : Bool := false) : Outcome × St × Option St × Res :=
+  let s0 := St.init w.size false verbose
   let (r1, s1) := execRule prog w fuel start s0
   match r1 with
   | .ok _ => (.tree, s1, none, r1)
